@@ -126,6 +126,26 @@ var c06BodyTpls = func() []c06BodyTpl {
 		Spec: func() hcldec.Spec {
 			return &hcldec.BlockTupleSpec{TypeName: "blk", Nested: &hcldec.BlockSpec{TypeName: "inner", Nested: hcldec.ObjectSpec{"v": &hcldec.AttrSpec{Name: "v", Type: cty.String}}}}
 		}, A: strs("y"), B: strs("x"), Dyn: true})
+	// a static block nested in generated content: the generated block's value is what carries the marks
+	for _, kind := range []string{"single", "attrs"} {
+		kind := kind
+		out = append(out, c06BodyTpl{Name: "dyn-foreach-nested-static-block/" + kind, Src: "dynamic \"blk\" {\n  for_each = k\n  content {\n    b {\n      x = blk.value\n    }\n  }\n}\n",
+			Spec: func() hcldec.Spec {
+				var inner hcldec.Spec = &hcldec.BlockSpec{TypeName: "b", Nested: hcldec.ObjectSpec{"x": &hcldec.AttrSpec{Name: "x", Type: cty.String}}}
+				if kind == "attrs" {
+					inner = &hcldec.BlockAttrsSpec{TypeName: "b", ElementType: cty.String}
+				}
+				return &hcldec.BlockSpec{TypeName: "blk", Nested: hcldec.ObjectSpec{"b": inner}}
+			}, A: strs("v1"), B: strs("v2"), Dyn: true})
+	}
+	out = append(out, c06BodyTpl{Name: "dyn-attrs-number-of-attributes", Src: "dynamic \"blk\" {\n  for_each = k\n  content {\n    dynamic \"inner\" {\n      for_each = blk.value == \"x\" ? [1] : []\n      content {}\n    }\n  }\n}\n",
+		Spec: func() hcldec.Spec {
+			return &hcldec.BlockSpec{TypeName: "blk", Nested: &hcldec.BlockTupleSpec{TypeName: "inner", Nested: hcldec.ObjectSpec{}}}
+		}, A: strs("x"), B: strs("y"), Dyn: true})
+	// a default that replaces a marked null
+	out = append(out, c06BodyTpl{Name: "attr-default-for-marked-null", Src: "a = k\n", Spec: func() hcldec.Spec {
+		return hcldec.ObjectSpec{"a": &hcldec.DefaultSpec{Primary: &hcldec.AttrSpec{Name: "a", Type: cty.String}, Default: &hcldec.LiteralSpec{Value: cty.StringVal("dflt")}}}
+	}, A: func() cty.Value { return cty.NullVal(cty.String) }, B: strv("a")})
 	out = append(out, c06BodyTpl{Name: "attr-next-to-other-mark", Src: "a = [k, o]\n", Spec: func() hcldec.Spec {
 		return hcldec.ObjectSpec{"a": &hcldec.AttrSpec{Name: "a", Type: cty.DynamicPseudoType}}
 	}, A: strv("x"), B: strv("y")})
